@@ -187,6 +187,26 @@ func c17RetryCases() []c17Case {
 		sc.Name = fmt.Sprintf("retry overflow-is-not-retried num_retries=%d", nr)
 		out = append(out, c17Case{Kind: "overflow", Sc: sc})
 	}
+	// two outcomes on one attempt: the global timeout fires, one virtual millisecond later the upstream
+	// closes the connection. The first one decides: the request ends with the timeout answer and no
+	// further attempt is made, whatever the order in which the two events are handled (explored with 1 deviation).
+	for _, retryOn := range []bool{false, true} {
+		sc := hpScenario{Hosts: 2, RouteTimeoutMs: 100, RetryOn: retryOn, NumRetries: 2, ReplyDelayMs: 101,
+			Requests: []hpRequest{{Token: "t1", Script: []string{upDelayClose, upReply200}}}}
+		sc.Name = fmt.Sprintf("retry global-timeout-then-late-connection-close retry_on=%v", retryOn)
+		out = append(out, c17Case{Kind: "timeout-then-close", Sc: sc, WantTimeoutMs: 100, WantAttempts: 1})
+	}
+	// per-try timeout fires, one millisecond later the connection closes: one retry for the timeout (if configured), not two
+	for _, retryOn := range []bool{false, true} {
+		sc := hpScenario{Hosts: 2, RouteTimeoutMs: 60000, TryTimeoutMs: 100, RetryOn: retryOn, NumRetries: 1, ReplyDelayMs: 101,
+			Requests: []hpRequest{{Token: "t1", Script: []string{upDelayClose, upReply200}}}}
+		sc.Name = fmt.Sprintf("retry per-try-timeout-then-late-connection-close retry_on=%v", retryOn)
+		want := 1
+		if retryOn {
+			want = 2
+		}
+		out = append(out, c17Case{Kind: "timeout-then-close", Sc: sc, WantAttempts: want})
+	}
 	// freshly chosen host: the first attempt's host is ejected before the retry is decided
 	for _, o := range []string{upReplyBusy, upClose, upSilent} {
 		sc := hpScenario{Hosts: 2, RouteTimeoutMs: 60000, TryTimeoutMs: 100, RetryOn: true, NumRetries: 1, EjectFirstHost: true,
@@ -267,6 +287,9 @@ func c17Eval(p *vreport.Part, c c17Case, bound int) {
 	obs := &hpObs{}
 	sc := c.Sc
 	opts := vrt.Options{Bound: bound, Delay: true, MaxSteps: 400000, MaxExecs: 2000}
+	if c.Kind == "timeout-then-close" {
+		opts.MaxExecs = vreport.Pick(30000, 400000)
+	}
 	if len(c.Sc.Choices) > 0 || vreport.Replaying() {
 		opts.Replay = true
 		opts.Prefix = c.Sc.Choices
@@ -424,6 +447,33 @@ func c17Eval(p *vreport.Part, c c17Case, bound int) {
 			if present != wantPresent || (present && got != want) {
 				report(fmt.Sprintf("headers: route-level %s header %s not applied as configured", side, mode), fmt.Sprintf("present=%v value=%q, expected present=%v value=%q", present, got, wantPresent, want))
 			}
+		case "timeout-then-close":
+			// the two events are 1 ms of virtual time apart; judged in the executions where the first attempt
+			// was written before any virtual time passed (a worker stalled for a whole try timeout before it
+			// even sends is the timer-vs-send arbitration recorded under C03, not this case's subject)
+			if len(atts) == 0 || atts[0].f.AtMs != 0 {
+				p.Count("executions_skipped_first_attempt_delayed_by_the_schedule", 1)
+				return
+			}
+			// exact attempt count: default schedule only (under deviations the count also varies with the
+			// timer-vs-send arbitration recorded under C03); the time-based statements below hold on every schedule
+			if r.Cost == 0 && len(atts) != c.WantAttempts {
+				kind := "retry: an attempt that already ended (timeout) was ended a second time by a later connection event and the request retried again"
+				if len(atts) < c.WantAttempts {
+					kind = "retry: request not retried although the configured condition holds"
+				}
+				report(kind, fmt.Sprintf("%d attempts, expected %d; final status %d", len(atts), c.WantAttempts, st))
+			}
+			if c.WantTimeoutMs > 0 && len(atts) > 0 {
+				for i, a := range atts {
+					if a.f.AtMs-atts[0].f.AtMs > c.WantTimeoutMs {
+						report("retry: an upstream attempt was started after the global timeout had elapsed", fmt.Sprintf("attempt %d at +%d ms, global timeout %d ms", i+1, a.f.AtMs-atts[0].f.AtMs, c.WantTimeoutMs))
+					}
+				}
+				if st == int(bolt.ResponseStatusSuccess) {
+					report("timeout: the request was answered with a later attempt's reply although the global timeout had elapsed", fmt.Sprintf("status %d", st))
+				}
+			}
 		case "overflow":
 			if r.Cost != 0 {
 				return // the default schedule puts t2 behind t1's admission; other orders are C10's subject
@@ -485,6 +535,9 @@ func TestVerifC17Policy(t *testing.T) {
 		bound := 0
 		if vreport.Thorough() && c.Kind == "retry" {
 			bound = 1
+		}
+		if c.Kind == "timeout-then-close" {
+			bound = vreport.Pick(1, 2) // the order in which the two outcomes are handled is a scheduling matter
 		}
 		c17Eval(p, c, bound)
 		kinds[c.Kind]++
